@@ -253,9 +253,14 @@ class InprocStack:
         workflow._switch_runtime(self.runtime)
 
 
-def make_observing_basic_runtime() -> Any:
-    """A BasicRuntime that additionally RECORDS (a) every control-loop task it creates per run id and (b) a snapshot of
-    the run's mailbox at the moment ``abort()`` is called on it.  Pure observation: every call goes to super()."""
+_OBS_CLASSES: Dict[str, Any] = {}
+
+
+def _observing_classes() -> Dict[str, Any]:
+    """The observing BasicRuntime / adapter classes, built once per process (a class created per path would make
+    CrossHair re-parse this file on every path)."""
+    if _OBS_CLASSES:
+        return _OBS_CLASSES
     from workflows.plugins.basic import BasicRuntime, ExternalAsyncioAdapter
 
     from workflows.plugins.basic import InternalAsyncioAdapter
@@ -289,8 +294,13 @@ def make_observing_basic_runtime() -> Any:
             self.loops: Dict[str, List[Any]] = {}
             self.aborts: List[Dict[str, Any]] = []
             self.overlap = False  # a control loop was started while an older one of the same run was not done
+            self.purge_finished = False  # DBOS stub only (see make_stub_dbos_inner_runtime)
 
         def run_workflow(self, run_id, workflow, init_state, start_event=None, serialized_state=None, serializer=None):  # type: ignore[no-untyped-def]
+            if self.purge_finished:
+                q = self._queues.get(run_id)
+                if q is not None and q.complete.done():
+                    self._queues.pop(run_id, None)
             ad = super().run_workflow(run_id, workflow, init_state, start_event=start_event,
                                       serialized_state=serialized_state, serializer=serializer)
             olds = self.loops.setdefault(run_id, [])
@@ -312,7 +322,14 @@ def make_observing_basic_runtime() -> Any:
         def live_loops(self, run_id: str) -> int:
             return sum(1 for t in self.loops.get(run_id, []) if not t.done())
 
-    return ObsBasicRuntime()
+    _OBS_CLASSES.update(runtime=ObsBasicRuntime, internal=ObsInternalAdapter, external=ObsExternalAdapter)
+    return _OBS_CLASSES
+
+
+def make_observing_basic_runtime() -> Any:
+    """A BasicRuntime that additionally RECORDS (a) every control-loop task it creates per run id and (b) a snapshot of
+    the run's mailbox at the moment ``abort()`` is called on it.  Pure observation: every call goes to super()."""
+    return _observing_classes()["runtime"]()
 
 
 # --------------------------------------------------------------------------------------------- scenario runner
@@ -443,3 +460,397 @@ def abort_state_is_quiescent(ab: Dict[str, Any]) -> bool:
         if ws.queue or ws.in_progress:
             return False
     return True
+
+
+# ============================================================================================================
+# C26 / C36 second generation: tooling speed-ups, sampled scenario runner for both server stacks
+# ============================================================================================================
+_SPEEDUPS = False
+
+
+def install_speedups() -> None:
+    """Tooling only — none of this changes what the code under test computes.
+
+    * logging is switched off (``logging.disable``): LogRecord construction reads ``time.time()``, which CrossHair
+      models as a fresh symbolic float (a fork per log line); log output is observability only.
+    * under CrossHair, ``repr()`` of a CONCRETE int/float/bool/str/None returns the native string (CrossHair 0.0.110
+      turns even a concrete int's repr into a symbolic string; ``summarize_event`` then forks on its length).
+    * under CrossHair, ``workflows.utils.get_steps_from_instance/_class`` (``inspect.getmembers`` over a Workflow:
+      pure introspection of the class, no symbolic input) run with tracing off — the REAL functions, executed
+      natively, exactly like pydantic-core / sqlite3.  Measured: 18 s -> 2.5 s per whole-run path.
+    """
+    global _SPEEDUPS
+    if _SPEEDUPS:
+        return
+    _SPEEDUPS = True
+    import logging
+
+    logging.disable(logging.CRITICAL)
+    if not vlib.boot.under_crosshair():
+        return
+    try:
+        from crosshair import core as ch_core
+        from crosshair.tracers import NoTracing
+    except Exception:  # pragma: no cover
+        return
+    import workflows.utils as wu
+
+    orig_repr = ch_core._PATCH_REGISTRATIONS.get(repr)
+    if orig_repr is not None:
+        simple = (int, float, bool, str, type(None))
+
+        def concrete_repr(obj: Any) -> Any:
+            with NoTracing():
+                if type(obj) in simple:
+                    return repr(obj)
+            return orig_repr(obj)
+
+        ch_core._PATCH_REGISTRATIONS[repr] = concrete_repr
+
+    def untraced(fn: Any) -> Any:
+        def w(*a: Any, **k: Any) -> Any:
+            with NoTracing():
+                return fn(*a, **k)
+
+        return w
+
+    for f in (wu.get_steps_from_instance, wu.get_steps_from_class):
+        if f not in ch_core._PATCH_REGISTRATIONS:
+            ch_core._PATCH_REGISTRATIONS[f] = untraced(f)
+
+    # CrossHair "enforcement" looks up PEP-316 contracts of every callee (parsing the callee's source with ast on every
+    # call of a freshly created function / class) in order to check them at run time.  Nothing in /repo, pydantic or
+    # asyncio declares such contracts, so the lookup is switched off for every caller file: 20 % of the run time.
+    try:
+        from crosshair import enforce as ch_enforce
+
+        if ".py" not in ch_enforce._FILE_SUFFIXES_WITHOUT_ENFORCEMENT:
+            ch_enforce._FILE_SUFFIXES_WITHOUT_ENFORCEMENT = tuple(ch_enforce._FILE_SUFFIXES_WITHOUT_ENFORCEMENT) + (".py",)
+    except Exception:  # pragma: no cover
+        pass
+
+    # CrossHair runs gc.collect() on EVERY weakref dereference (WeakValueDictionary lookups in BasicRuntime._queues and
+    # WorkflowSet: 34 % of the run time) to make weak references deterministic across its re-executions.  The
+    # scenarios here make all solver decisions before the scenario starts (vlib.h_idle.concrete), and their verdicts do
+    # not depend on when a finished run's mailbox is collected, so the plain dereference is used.
+    try:
+        from weakref import ref as _ref
+
+        if _ref.__call__ in ch_core._PATCH_REGISTRATIONS:
+            del ch_core._PATCH_REGISTRATIONS[_ref.__call__]
+    except Exception:  # pragma: no cover
+        pass
+
+
+def make_stub_dbos_inner_runtime() -> Any:
+    """ENVIRONMENT STUB for ``DBOSRuntime`` (dbos / sqlalchemy are not installed): the observing BasicRuntime, plus the
+    one thing ``DBOSIdleReleaseDecorator._do_resume`` relies on DBOS for — ``DBOS.delete_workflow_async(run_id)`` makes
+    the run id reusable — modelled as: a *finished* run's mailbox entry is dropped when the same run id is started
+    again.  It never touches the lifecycle table (``dbos_runtime_touches_lifecycle()`` checks that the real
+    DBOSRuntime does not either)."""
+    rt = make_observing_basic_runtime()
+    rt.purge_finished = True
+    return rt
+
+
+class DBOSUnavailable:
+    """Stands in for the NAME ``DBOS`` inside ``llama_agents.dbos.idle_release`` while an obligation runs: every call
+    raises a plain ``RuntimeError`` — which ``_do_resume`` handles in its existing ``try/except Exception`` blocks
+    ("Failed to await old DBOS workflow" / "DBOS state already purged").  With the stub inner runtime the old run has
+    already finished when ``complete_release`` was written, so skipping that wait loses nothing."""
+
+    calls: List[str] = []
+
+    @staticmethod
+    async def retrieve_workflow_async(*a: Any, **k: Any) -> Any:
+        raise RuntimeError("DBOS is not available in this sandbox (harness stand-in)")
+
+    @staticmethod
+    async def delete_workflow_async(*a: Any, **k: Any) -> Any:
+        raise RuntimeError("DBOS is not available in this sandbox (harness stand-in)")
+
+
+def dbos_lifecycle_create_callers() -> List[str]:
+    """AST scan of the CURRENT ``llama_agents/dbos`` sources (lifecycle.py itself excluded): every call of a method
+    named ``create`` — i.e. every place that could insert a ``run_lifecycle`` row — as "file:line"."""
+    out: List[str] = []
+    for root, _dirs, files in os.walk(DBOS_DIR):
+        for fn in sorted(files):
+            if not fn.endswith(".py"):
+                continue
+            p = os.path.join(root, fn)
+            if p.endswith(os.path.join("journal", "lifecycle.py")):
+                continue
+            with open(p) as f:
+                src = f.read()
+            for node in ast.walk(ast.parse(src)):
+                if isinstance(node, ast.Call) and isinstance(node.func, ast.Attribute) and node.func.attr == "create":
+                    out.append(f"{os.path.relpath(p, DBOS_DIR)}:{node.lineno}")
+    return out
+
+
+def dbos_runtime_touches_lifecycle() -> bool:
+    """True iff ``llama_agents/dbos/runtime.py`` (the module the stub inner runtime stands in for) does anything with
+    the lifecycle lock besides importing the classes and building the lock factory — decided by AST on the current
+    source: names containing 'lifecycle' (case-insensitive) may occur only in import statements, in the method
+    ``_create_lifecycle_lock_factory`` and as the keyword ``lifecycle_lock=`` of the decorator construction; and no
+    ``.create(...)`` call on anything.  If this returns True the stub is no longer faithful and the DBOS obligations
+    declare themselves not runnable (precondition unsatisfiable => reported inconclusive, never as holding)."""
+    p = os.path.join(DBOS_DIR, "runtime.py")
+    with open(p) as f:
+        tree = ast.parse(f.read())
+    allowed_fn = "_create_lifecycle_lock_factory"
+
+    def walk(node: ast.AST, inside_allowed: bool) -> bool:
+        for ch in ast.iter_child_nodes(node):
+            if isinstance(ch, (ast.Import, ast.ImportFrom)):
+                continue
+            ok_here = inside_allowed or (isinstance(ch, (ast.FunctionDef, ast.AsyncFunctionDef)) and ch.name == allowed_fn)
+            if not ok_here:
+                if isinstance(ch, ast.Name) and "lifecycle" in ch.id.lower():
+                    return True
+                if isinstance(ch, ast.Attribute) and "lifecycle" in ch.attr.lower() and ch.attr != allowed_fn:
+                    return True
+                if isinstance(ch, ast.Call) and isinstance(ch.func, ast.Attribute) and ch.func.attr == "create":
+                    return True
+            if walk(ch, ok_here):
+                return True
+        return False
+
+    return walk(tree, False)
+
+
+LIFECYCLE_SQL_FILE = os.path.join(DBOS_DIR, "_store", "sqlite", "migrations", "0001_init.sql")
+
+
+def make_lifecycle_db(db_path: str) -> None:
+    """Create the tables from the package's own sqlite migration SQL (current file) in ``db_path``."""
+    import sqlite3
+
+    with open(LIFECYCLE_SQL_FILE) as f:
+        sql = f.read()
+    conn = sqlite3.connect(db_path)
+    try:
+        conn.executescript(sql)
+        conn.commit()
+    finally:
+        conn.close()
+
+
+def lifecycle_row(db_path: str, run_id: str) -> Optional[str]:
+    """state of the run's lifecycle row, or None if there is no row (read directly with sqlite3)."""
+    import sqlite3
+
+    conn = sqlite3.connect(db_path)
+    try:
+        row = conn.execute("SELECT state FROM run_lifecycle WHERE run_id = ?", (run_id,)).fetchone()
+    finally:
+        conn.close()
+    return None if row is None else str(row[0])
+
+
+class DbosStack:
+    """The DBOS server stack as ``DBOSRuntime.build_server_runtime`` + ``WorkflowServer`` assemble it:
+    ServerRuntimeDecorator( DBOSIdleReleaseDecorator( EventInterceptorDecorator( TickPersistenceDecorator( <inner> ))))
+    with the REAL decorators and the REAL ``SqliteRunLifecycleLock`` on ``db_path``; <inner> is the stub above.
+    The workflow store is a MemoryWorkflowStore (the decorator only uses the AbstractWorkflowStore interface)."""
+
+    def __init__(self, idle_timeout: Any, db_path: str, store: Any = None, wrap_lock: Any = None) -> None:
+        ensure_dbos_importable()
+        from llama_agents.dbos.idle_release import DBOSIdleReleaseDecorator
+        from llama_agents.dbos.journal.lifecycle import SqliteRunLifecycleLock
+        from llama_agents.server._runtime.event_interceptor import EventInterceptorDecorator
+        from llama_agents.server._runtime.persistence_runtime import TickPersistenceDecorator
+        from llama_agents.server._runtime.server_runtime import ServerRuntimeDecorator
+        from llama_agents.server._service import _WorkflowService
+        from llama_agents.server._store.memory_workflow_store import MemoryWorkflowStore
+
+        self.db_path = db_path
+        self.store = store if store is not None else MemoryWorkflowStore()  # shared by "replicas" = the shared database
+        self.basic = make_stub_dbos_inner_runtime()
+        self.persistence = TickPersistenceDecorator(self.basic, self.store)
+        # same shape as DBOSRuntime._create_lifecycle_lock_factory for the sqlite back end: an async factory
+        lock = SqliteRunLifecycleLock(db_path=db_path)
+        self.real_lock = lock
+        if wrap_lock is not None:  # fault injection (a process death between two lock calls), never a behaviour change
+            lock = wrap_lock(lock)
+        self.lock = lock
+
+        async def lock_factory() -> Any:
+            return lock
+
+        self.idle = DBOSIdleReleaseDecorator(EventInterceptorDecorator(self.persistence), store=self.store,
+                                             idle_timeout=idle_timeout, journal_crud=None, lifecycle_lock=lock_factory)
+        self.runtime = ServerRuntimeDecorator(self.idle, store=self.store, persistence_backoff=[])
+        self.service = _WorkflowService(runtime=self.runtime, store=self.store)
+
+    def add_workflow(self, name: str, workflow: Any) -> None:  # == WorkflowServer.add_workflow
+        workflow._switch_workflow_name(name)
+        workflow._switch_runtime(self.runtime)
+
+
+def dbos_clock_modules() -> Dict[str, List[Any]]:
+    ensure_dbos_importable()
+    import llama_agents.dbos.idle_release as dir_
+    import llama_agents.dbos.journal.lifecycle as lc
+
+    c = inproc_clock_modules()
+    return {"time": list(c["time"]), "datetime": list(c["datetime"]) + [dir_, lc]}
+
+
+def run_stack(kind: str, idle_timeout: Any, sends: List[Any], make_workflow: Any, make_event: Any, *,
+              early: bool = True, probe_to: int = 0, precreate: bool = False, settle: int = 1,
+              horizon: int = 6, simultaneous_resumers: int = 1) -> Dict[str, Any]:
+    """One whole scenario on a fresh MiniLoop / store / runtime stack (``kind`` = "inproc" | "dbos").
+
+    * the workflow instance from ``make_workflow()`` is registered as "w" and started through the REAL
+      ``_WorkflowService.start_workflow`` (handler "h1", run id "run1") at virtual time 0;
+    * ``sends`` = [(at, payload), ...] (``at`` absolute virtual instants): ``make_event(payload)`` is sent through the
+      REAL ``_WorkflowService.send_event``.  ``early=True``: the sender's timer is registered at time 0 (it wins a tie
+      with a release timer of the same instant); ``early=False``: it is registered half a second before ``at`` (it
+      loses such a tie) — MiniLoop fires equal deadlines in registration order, so both tie orders are covered;
+    * a sampler records the run's externally visible condition at every half-integer instant < ``probe_to``;
+    * ``kind="dbos"``, ``precreate=True``: the lifecycle row is created through the REAL ``lock.create(run_id)`` right
+      after the start (what the ``create`` docstring says happens "when workflow starts").
+    Returns plain data for the obligations' predicates."""
+    import llama_agents.server._service as svc
+    import workflows.runtime.types.step_function as sf
+    from llama_agents.server._store.abstract_workflow_store import HandlerQuery
+    from vlib.miniloop import MiniLoop
+
+    install_speedups()
+    loop = MiniLoop()
+    obs: Dict[str, Any] = {"pre_send": [], "post_send": [], "errors": [], "samples": []}
+    tmp = None
+    db_path = ""  # (every closure cell of main() must be filled: CrossHair inspects them at call time)
+    if kind == "dbos":
+        from vlib.h_stores import TmpDir
+
+        tmp = TmpDir()
+        d = tmp.__enter__()
+        db_path = os.path.join(d, "dbos.sqlite")
+        make_lifecycle_db(db_path)
+
+    async def main() -> None:
+        st: Any = InprocStack(idle_timeout) if kind == "inproc" else DbosStack(idle_timeout, db_path)
+        wf = make_workflow()
+        st.add_workflow("w", wf)
+        await st.service.start()
+        await st.service.start_workflow(wf, "h1", None)
+        if kind == "dbos" and precreate:
+            await st.lock.create("run1")
+
+        async def handler_rec() -> Any:
+            return (await st.store.query(HandlerQuery(handler_id_in=["h1"])))[0]
+
+        def released_flag() -> Any:
+            if kind == "inproc":
+                return "run1" not in st.idle._active_run_ids
+            return lifecycle_row(db_path, "run1")
+
+        async def snapshot() -> Dict[str, Any]:
+            h = await handler_rec()
+            return {"at": loop.time(), "live": st.basic.live_loops("run1"), "queued": "run1" in st.basic._queues,
+                    "lifecycle": released_flag(), "status": h.status,
+                    "idle_since": None if h.idle_since is None else (h.idle_since - EPOCH).total_seconds(),
+                    "loops": len(st.basic.loops.get("run1", [])), "aborts": len(st.basic.aborts)}
+
+        async def sampler() -> None:
+            if probe_to <= 0:
+                return
+            await asyncio.sleep(0.5)
+            for k in range(probe_to):
+                obs["samples"].append(await snapshot())
+                if k + 1 < probe_to:
+                    await asyncio.sleep(1)
+
+        async def sender(i: int, at: Any, payload: Any) -> None:
+            if early or at < 1:
+                await asyncio.sleep(at)
+            else:
+                await asyncio.sleep(at - 0.5)
+                await asyncio.sleep(0.5)
+            obs["pre_send"].append(dict(await snapshot(), i=i))
+            try:
+                await st.service.send_event("h1", make_event(payload))
+            except Exception as e:  # noqa: BLE001 - recorded, judged by the obligation
+                obs["errors"].append(f"send {i}: {type(e).__name__}: {e}")
+            # WorkflowHandler.send_event hands the tick to a background task: "delivered" is observed a quarter of a
+            # second later (virtual time only advances when nothing is runnable, so everything of this instant has
+            # settled), and once more at +0.75 s if the run is still being resumed (the DBOS sender polls every 0.5 s
+            # while the row is 'releasing')
+            await asyncio.sleep(0.25)
+            snap = await snapshot()
+            if snap["status"] == "running" and snap["live"] == 0:
+                await asyncio.sleep(0.5)
+                snap = await snapshot()
+            obs["post_send"].append(dict(snap, i=i))
+
+        tasks = [asyncio.ensure_future(sampler())]
+        tasks += [asyncio.ensure_future(sender(i, at, p)) for i, (at, p) in enumerate(sends)]
+        for t in tasks:
+            await t
+        h = await handler_rec()
+        waited = 0
+        while h.status == "running" and waited < horizon:
+            await asyncio.sleep(1)
+            waited += 1
+            h = await handler_rec()
+        if settle:
+            await asyncio.sleep(settle)
+            h = await handler_rec()
+        ticks = await st.store.get_ticks("run1")
+        obs["status"] = h.status
+        obs["idle_since"] = h.idle_since is not None
+        obs["result"] = h.result.result if h.result is not None else None
+        obs["error"] = h.error
+        obs["ticks"] = [t.tick_data for t in ticks]
+        obs["aborts"] = list(st.basic.aborts)
+        obs["overlap"] = st.basic.overlap
+        obs["loops"] = len(st.basic.loops.get("run1", []))
+        obs["live_at_end"] = st.basic.live_loops("run1")
+        obs["end"] = loop.time()
+        obs["workflow"] = wf
+        obs["final"] = await snapshot()
+        # instants at which the engine announced the run idle (WorkflowIdleEvent in the stored event stream)
+        obs["idle_at"] = [(e.timestamp - EPOCH).total_seconds() for e in await st.store.query_events("run1")
+                          if e.event.type == "WorkflowIdleEvent"]
+        obs["loop_exceptions"] = [str(c.get("exception") or c.get("message")) for c in loop._exc]
+        await st.service.stop()
+        await asyncio.sleep(0)  # let the stop task (cancels whatever is still active) run
+
+    clocks = inproc_clock_modules() if kind == "inproc" else dbos_clock_modules()
+    saved_nanoid, saved_uuid = svc.nanoid, sf.uuid
+    svc.nanoid = _FixedIds("run")
+    sf.uuid = _FixedIds("span")
+    saved_dbos = None
+    if kind == "dbos":
+        import llama_agents.dbos.idle_release as dir_
+
+        saved_dbos = dir_.DBOS
+        dir_.DBOS = DBOSUnavailable
+    try:
+        with VirtualClocks(loop, time_mods=clocks["time"], datetime_mods=clocks["datetime"]):
+            loop.run_until_complete(main())
+    finally:
+        svc.nanoid, sf.uuid = saved_nanoid, saved_uuid
+        if kind == "dbos":
+            import llama_agents.dbos.idle_release as dir_
+
+            dir_.DBOS = saved_dbos
+        if tmp is not None:
+            tmp.__exit__(None, None, None)
+    return obs
+
+
+def ext_payloads_in_ticks(ticks: List[Dict[str, Any]], field: str = "n") -> List[Any]:
+    """The ``field`` values of the external events recorded as ``add_event`` ticks, in log order."""
+    out: List[Any] = []
+    for t in ticks:
+        if t.get("type") != "add_event":
+            continue
+        ev = t.get("event") or {}
+        val = ev.get("value") if isinstance(ev, dict) else None
+        if isinstance(val, dict) and field in val:
+            out.append(val[field])
+    return out
